@@ -33,6 +33,7 @@ type harnessCfg struct {
 	Fresh    bool           `json:"fresh"`  // discharge FP obligations in a fresh solver process
 	Note     string         `json:"note"`
 	MaxViol  int            `json:"max_violations"`
+	CollectLabels bool      `json:"-"`
 }
 
 type violationRec struct {
@@ -67,6 +68,8 @@ type harnessResult struct {
 	BudgetHit                                 string
 	Unsupported                               int
 	Stubs                                     map[string]int
+	PathLabels                                [][]string
+	PathOutcome                               []string
 }
 
 func signature(msg string, labels []string) string {
@@ -309,6 +312,14 @@ func explore(ld *loaded, fn *ssa.Function, hc harnessCfg, params map[string]int,
 			}
 			if opt.verbose {
 				fmt.Printf("  path w%d steps=%d outcome=%v\n", id, in.Steps, outcome)
+			}
+			if hc.CollectLabels {
+				res.PathLabels = append(res.PathLabels, append([]string(nil), in.Labels...))
+				oc := "ok"
+				if outcome != nil {
+					oc = fmt.Sprint(outcome)
+				}
+				res.PathOutcome = append(res.PathOutcome, oc)
 			}
 			res.Obligations += in.Obligations
 			res.Discharged += in.Discharged
